@@ -445,6 +445,112 @@ def stream_sqlite(ctx, n, name="sqlite-kill"):
         shutil.rmtree(root, ignore_errors=True)
 
 
+def stream_sqlite_ops(ctx, name="sqlite-kill-between-statements"):
+    """multi-statement rewriting operations of the SQLite backend, killed after the n-th data-modifying statement"""
+    import re
+    import sqlite3
+
+    common.setup_repo_imports()
+    import xonsh.history.sqlite as hs
+
+    ctx.stream_rule(
+        name,
+        "history delete (pattern matching several distinct inputs) and history erasedups on a scratch SQLite store of 14 commands "
+        "in 3 sessions; a forked child is killed (os._exit, nothing committed or closed) after its n-th DELETE/UPDATE/INSERT statement, "
+        "for EVERY n (exhaustive); the reopened table (inp, tsb, frequency) must be the complete previous or the complete new "
+        "contents; non-trivial = every kill point",
+    )
+
+    def build(root):
+        fn = os.path.join(root, "h.sqlite")
+        setattr(hs.XH_SQLITE_CACHE, hs.XH_SQLITE_CREATED_SQL_TBL, False)
+        t = 100.0
+        for sid, inps in (("s1", ["ls", "git status", "secret-1", "ls", "make"]), ("s2", ["git status", "secret-2", "ls", "vim x", "git status"]), ("s3", ["secret-3", "make", "ls", "secret-1"])):
+            for inp in inps:
+                t += 1
+                hs.xh_sqlite_append_history({"inp": inp, "rtn": 0, "ts": (t, t + 0.5), "out": None, "cwd": "/"}, sid, False, filename=fn)
+        return fn
+
+    def rows(fn):
+        conn = sqlite3.connect(fn)
+        try:
+            return sorted(conn.execute("SELECT inp, tsb, frequency FROM xonsh_history").fetchall())
+        finally:
+            conn.close()
+
+    ops = {
+        "delete": lambda fn: hs.xh_sqlite_delete_input_matching(re.compile("secret"), filename=fn),
+        "erasedups": lambda fn: hs.xh_sqlite_erasedups(filename=fn),
+    }
+    real_sqlite3 = hs.sqlite3
+    for opname, op in ops.items():
+        root = str(common.scratch_root() / f"c13s-{uuid.uuid4().hex[:8]}")
+        os.makedirs(root)
+        _envs(root)
+        fn = build(root)
+        old = rows(fn)
+        op(fn)
+        new = rows(fn)
+        shutil.rmtree(root, ignore_errors=True)
+        n = 0
+        while True:
+            n += 1
+            root = str(common.scratch_root() / f"c13s-{uuid.uuid4().hex[:8]}")
+            os.makedirs(root)
+            _envs(root)
+            fn = build(root)
+            r, w = os.pipe()
+            pid = os.fork()
+            if pid == 0:
+                os.close(r)
+                count = [0]
+
+                class Cur(sqlite3.Cursor):
+                    def execute(self, sql, *a):
+                        res = super().execute(sql, *a)
+                        if sql.lstrip().upper().startswith(("DELETE", "UPDATE", "INSERT")):
+                            count[0] += 1
+                            if count[0] == n:
+                                os.write(w, b"K")
+                                os._exit(0)
+                        return res
+
+                class Conn(sqlite3.Connection):
+                    def cursor(self, *a, **k):
+                        return super().cursor(Cur)
+
+                proxy = types.SimpleNamespace(**{k: getattr(real_sqlite3, k) for k in dir(real_sqlite3) if not k.startswith("__")})
+                proxy.connect = lambda *a, **k: real_sqlite3.connect(*a, factory=Conn, **k)
+                hs.sqlite3 = proxy
+                try:
+                    op(fn)
+                finally:
+                    os._exit(0)
+            os.close(w)
+            os.waitpid(pid, 0)
+            killed = os.read(r, 1) == b"K"
+            os.close(r)
+            got = rows(fn)
+            shutil.rmtree(root, ignore_errors=True)
+            if not killed:
+                break  # the operation has fewer than n data-modifying statements: every kill point was visited
+            ctx.case(name, (opname, n), True, {"operation": opname, "killed_after_statement": n})
+            ctx.count(f"sqlite-kill/{opname}")
+            if got != old and got != new:
+                ctx.spec_failure({"stream": name, "operation": opname, "killed_after_statement": n},
+                                 {"rows_after_kill": len(got), "old_rows": len(old), "new_rows": len(new)},
+                                 f"SQLite history `{opname}` killed between two statements left the table neither old nor new", None)
+                break
+
+
+def _envs(root):
+    from xonsh.built_ins import XSH
+    from xonsh.environ import Env
+
+    XSH.env = Env(XONSH_DATA_DIR=root, XONSH_DEBUG=0, HISTCONTROL="", XONSH_STORE_STDOUT=False)
+    XSH.history = None
+
+
 def replay_known(ctx, hj):
     for f in ctx.known:
         w = f["witness"]
@@ -494,6 +600,7 @@ def _run(ctx, hj):
             scenario(ctx, hj, sc, v, name, exhaustive_partials=not ctx.quick())
     ctx.exhaustive = True
     stream_sqlite(ctx, ctx.n(6, 40))
+    stream_sqlite_ops(ctx)
 
 
 def search(ctx, reason):
